@@ -567,6 +567,7 @@ type FuncResult struct {
 	Unsup    []string
 	Notes    []string
 	Trusted  []string
+	Applied  []string // verified (non-trusted) repo contracts applied at call sites
 	Covers   []*Cover
 	Script   *Script
 	Vacuous  string // non-empty: assumptions are contradictory
@@ -717,6 +718,10 @@ func (v *Verifier) generate(bc *BoundContract) *FuncResult {
 			for k := range c.trusted {
 				res.Trusted = append(res.Trusted, k)
 			}
+			for k := range c.applied {
+				res.Applied = append(res.Applied, k)
+			}
+			sort.Strings(res.Applied)
 			sort.Strings(res.Trusted)
 			break
 		}
